@@ -782,6 +782,22 @@ func gen(tier string, seed uint64) []runner.Scenario {
 			}
 		}
 	}
+	// directed first-use programs: the very first calls on a zero Chan are a Get and polls of Full on
+	// other goroutines, one of them parked inside the lazy creation; every Get, then and later, must
+	// hand out the one channel
+	for _, pt := range chanPoints {
+		for k, procs := range [][][]chanOp{
+			{{cGet, cGet}, {cFull, cGet}, {cFull}},
+			{{cFull, cGet}, {cGet}, {cFull, cFull, cGet}},
+			{{cGet}, {cFull}, {cFull}, {cFull, cGet}},
+		} {
+			for nth := 1; nth <= 2; nth++ {
+				pt, procs, nth := pt, procs, nth
+				id := fmt.Sprintf("chan-first-use-full/%s/%d/nth%d", pt, k, nth)
+				out = append(out, runner.Scenario{ID: id, Run: func() runner.Result { return chanScenario(id, pt, nth, procs) }})
+			}
+		}
+	}
 	cops := []chanOp{cGet, cGetWait, cClose, cFull, cMake1}
 	for _, pt := range chanPoints {
 		for rep := 0; rep < reps*2; rep++ {
